@@ -1,0 +1,16 @@
+//go:build verif
+
+package sdf
+
+// SimYield, when non-nil, is called at the points where a goroutine of this
+// package is about to consume from or has just handed work to another
+// goroutine. The /verif deterministic simulator installs a function that
+// parks the caller until its seeded scheduler picks it. Only built with the
+// "verif" tag.
+var SimYield func(site string, key uint64)
+
+func simYield(site string, key uint64) {
+	if f := SimYield; f != nil {
+		f(site, key)
+	}
+}
